@@ -119,7 +119,7 @@ ARMS = {
     ensures ({ let s = vecs(heap)[vid(&arguments@[0]->Vector_0)]; let p = arguments@[1];
         &&& (r is Ok && r->Ok_0.0 == Some(Primitive::Optional(None))) ==> forall|j: int| 0 <= j < s.len() ==> !eqp(#[trigger] s[j], p)
         &&& (r is Ok && r->Ok_0.0 != Some(Primitive::Optional(None))) ==> exists|k: int| 0 <= k < s.len() && eqp(s[k], p) && (forall|j: int| 0 <= j < k ==> !eqp(#[trigger] s[j], p))
-                && r->Ok_0.0 == Some(Primitive::Optional(Some(Box::new(Primitive::Int(k as i32))))) })""", False),
+                && r->Ok_0.0 == Some(Primitive::Int(k as i32)) })      // the plain int, not a wrapper around it (D91)""", False),
  "VecClear": ("""requires list_recv(old(heap), arguments@)
     ensures r is Ok, vecs(final(heap)) == vecs(old(heap)).insert(vid(&arguments@[0]->Vector_0), Seq::<Primitive>::empty()), maps(final(heap)) == maps(old(heap))""", True),
  "VecEnsureInnerCapacity": ("""requires list_recv(old(heap), arguments@), arguments@.len() >= 2, arguments@[1] is Int
@@ -271,20 +271,9 @@ pub fn equals_vector(v1: &VecH, v2: &VecH, heap: &Heap) -> (r: Result<bool, VErr
 }}
 """)
     obls.append(Obl("C13.equals.vector", ["C13"], fn="equals_vector", desc="list == list: same length and elementwise equal (not just a common prefix)"))
-    # twin obligation for known finding D76: by the sequence model, `==` on lists is the LANGUAGE's `==` on the elements (a present optional equals the
-    # value it holds: C12) -- the code compares the elements' representations
-    fns.append("""
-//@ KF C13.equals.vector.language-eq
-pub fn equals_vector_lang(v1: &VecH, v2: &VecH, heap: &Heap) -> (r: Result<bool, VErr>)
-    requires live(heap, v1), live(heap, v2)
-    ensures r is Ok ==> r->Ok_0 == (vecs(heap)[vid(v1)].len() == vecs(heap)[vid(v2)].len()
-                && forall|i: int| 0 <= i < vecs(heap)[vid(v1)].len() ==> eqp(#[trigger] vecs(heap)[vid(v1)][i], vecs(heap)[vid(v2)][i]))
-{
-""" + render(b, 1) + """
-}
-""")
-    obls.append(Obl("C13.equals.vector.language-eq", ["C13", "C12"], kind="kf", finding="D76", fn="equals_vector_lang",
-                    desc="list == list compares the elements with the language's `==` (a present optional equals the value it holds) -- known finding D76: it compares representations"))
+    # D76 (list `==` compares representations): the only values whose representation differed from their language value were present optionals
+    # wrapped by the built-ins (`Optional(Some(v))` vs `v`); since D91 no built-in produces such a wrapper -- every producer is under the
+    # "present value is the plain value" contracts (C14.StrParse*, C14.StrIndexOf, C13.VecIndexOf, C13.MapReplace, C13.MapRemove)
     # vec_op `[idx]` on a list: the bounds check in front of the element pointer
     fv = src.fn("bytecode/src/instruction.rs", "vec_op", "pub mod implementations")
     try:
